@@ -51,6 +51,8 @@ def val_term(j):
         return C(k, int(j[1]), int(j[2]))
     if k == "PArray":
         return C(k, int(j[1]), [int(n) for n in j[2]], int(j[3]))
+    if k == "PProxy":
+        return C(k, int(j[1]), int(j[2]))
     raise ValueError(j)
 
 
@@ -170,6 +172,9 @@ ATOMS = [
     ["PComplexObj", ["Returns", [F(1.0), F(2.0)]]], ["PComplexObj", ["Raises", "ETypeError"]],
     ["PComplexObj", ["Raises", "EValueError"]],
     ["PObj", 100, 1], ["PObj", 101, 1], ["PObj", 102, 1], ["PObj", 110, 1], ["PObj", 111, 1],
+    # transparent proxies (type Proxy, __class__ reports a user class); proxies of built-in types / of the host class are
+    # not generated: there the compiled exact type check differs from isinstance by construction
+    ["PProxy", 100, 1], ["PProxy", 101, 1], ["PProxy", 102, 1],
     ["PType", 100], ["PType", 101], ["PType", 102], ["PType", 3], ["PType", 110],
     ["PCallable", 0], ["PCallable", 1], ["PModule", 0],
     ["POther", -1], ["POther", -2], ["POther", -3], ["POther", 1],
@@ -203,6 +208,17 @@ def int_ranges():
             for m in (0, 1, 2, 3)]
 
 
+def variants(d):
+    """construction variants of a configuration that must validate identically"""
+    if d[0] == "DEnum" and len(d) == 2 and len(d[1]) > 1:
+        return [d + [f] for f in ("args", "dflt", "tuple")]
+    if d[0] == "DRangeF" and len(d) == 4 and d[1] is not None and d[2] is not None:
+        return [d + ["mixed"]]
+    if d[0] == "DInstance" and len(d) == 4 and d[1] in (100, 101):
+        return [d + ["name"]]
+    return []
+
+
 ENUMS = [
     ["DEnum", [["PInt", 1], ["PInt", 2], S("a")]],
     ["DEnum", [["PFloat", F(0.5)], ["PNone"]]],
@@ -223,7 +239,8 @@ SIMPLE_FAST = [["DInt"], ["DFloat"], ["DComplex"], ["DStr"], ["DBytes"], ["DBool
 def instances():
     out = []
     for an in (True, False):
-        out += [["DInstance", 100, an, False], ["DInstance", 101, an, False], ["DInstance", 3, an, True],
+        out += [["DInstance", 100, an, False], ["DInstance", 101, an, False], ["DInstance", 100, an, False, "clone"],
+                ["DInstance", 3, an, True],
                 ["DInstance", 4, an, True], ["DInstance", 8, an, True], ["DSelf", an], ["DCallable", an]]
     return out
 
